@@ -798,7 +798,7 @@ theorem mono_setParams (pos : Pos) (ps : List String) : Mono (setParams pos ps) 
     · exact MonoP.cerr
     · split
       · exact MonoP.cerr
-      · refine MonoP.bind (P := fun _ => True) ?_ fun _ _ => mono_setParamsLoop pos ps 0
+      · refine MonoP.bind (P := fun _ => True) (mono_setParamsLoop pos ps 0) fun _ _ => ?_
         exact mono_modHead fun t => rootExt_sameStore rfl rfl (Nat.le_refl _) (Nat.le_refl _)
 
 def constLitTable (bs : List (String × Nat)) (name : String) (sym : Symbol) (t : Table) : Table :=
@@ -1036,25 +1036,28 @@ theorem mono_withFn (pos : Pos) (variadic : Bool) (params : List String) {body :
   obtain ⟨t, r, htr⟩ := exists_head hs
   unfold withFn
   apply SatB.toX
-  apply SatB.bind_run (runCM_forkTable false htr)
-  apply SatB.seq (mono_setParams pos params) (ext_push hs _)
+  apply SatB.bind_run (runCM_enterFn variadic s)
+  generalize he0 : ({ tables := s.tables, constants := s.constants, variadic := variadic, builtins := s.builtins } : CState) = e0
+  have ht0 : e0.tables = t :: r := by subst he0; exact htr
+  have hc0 : e0.constants = s.constants := by subst he0; rfl
+  have hs0 : e0.tables ≠ [] := by rw [ht0]; simp
+  have hext0 : Ext s e0 := Ext.of_same hs (by rw [ht0, htr]) hc0
+  apply SatB.bind_run (runCM_forkTable false ht0)
+  apply SatB.seq (mono_setParams pos params) (hext0.trans (ext_push hs0 _))
   intro _ s2 hl2 he2 _
-  apply SatB.bind_run (runCM_enterFn variadic s2)
-  have he3 : Ext s { s2 with insts := #[], sourceMap := [], loops := [], tryCatchIndex := -1, iotaVal := -1, variadic := variadic } :=
-    he2.trans (Ext.of_same he2.ne rfl rfl)
-  apply SatB.seq hb he3
+  apply SatB.seq hb he2
   intro _ s4 hl4 he4 _
   apply SatB.seq (Frame.mono frame_finishFn) he4
   intro fn s5 hl5 he5 _
   obtain ⟨t5, r5, htr5⟩ := exists_head he5.ne
   have hlen : r5.length = s.tables.length := by
     have : s5.tables.length = s.tables.length + 1 := by
-      rw [hl5, hl4]; simp only; rw [hl2]; simp
+      rw [hl5, hl4, hl2]; simp [ht0, htr]
     rw [htr5] at this
     simpa using this
   have hr5 : r5 ≠ [] := by
     intro h0; rw [h0] at hlen; exact hs (List.length_eq_zero_iff.mp hlen.symm)
-  apply SatB.bind_run (runCM_leaveFn s2 htr5)
+  apply SatB.bind_run (runCM_leaveFn s htr5)
   apply SatB.pure
   refine ⟨hlen, ⟨hr5, ?_, he5.consts⟩, trivial⟩
   have := he5.root
